@@ -365,6 +365,7 @@ func TestC20H_History(t *testing.T) {
 			return true
 		}
 		steps := rapid.IntRange(8, 22).Draw(t, "steps")
+		forkLog := 0
 		for i := 0; i < steps; i++ {
 			if err := a.Adopt(); err != nil {
 				t.Fatalf("HARNESS: adopt: %v", err)
@@ -377,8 +378,34 @@ func TestC20H_History(t *testing.T) {
 			}
 			// conversions are confirmed by prime blocks: mine those often
 			order := rapid.SampledFrom([]int{sim.Prime, sim.Prime, sim.Zone, sim.Zone, sim.Region}).Draw(t, "order")
+			// a prime-level fork: two sibling prime blocks confirm the same conversions; the node first
+			// appends (and follows) block A, then block B, and the history continues on B. Whatever
+			// the first append did to the conversions it read must not change what the second credits.
+			var sibling *sim.Actor
+			if order == sim.Prime && rapid.IntRange(0, 2).Draw(t, "primeFork") == 0 {
+				sibling = a.Fork(a.Salt + 5000 + uint64(i))
+				forkLog = len(a.Log)
+			}
 			if _, err := a.MineRandomOrder(t, order); err != nil {
 				t.Fatalf("HARNESS: mine: %v\n%s", err, strings.Join(a.Log, "\n"))
+			}
+			if sibling != nil {
+				if err := a.Adopt(); err != nil {
+					t.Fatalf("HARNESS: adopt: %v", err)
+				}
+				if !check(fmt.Sprintf("step %d (prime block A of a fork)", i)) {
+					return
+				}
+				if err := sibling.Adopt(); err != nil {
+					t.Fatalf("HARNESS: adopt sibling: %v", err)
+				}
+				if _, err := sibling.MineRandomOrder(t, sim.Prime); err != nil {
+					t.Fatalf("HARNESS: mine sibling: %v\n%s", err, strings.Join(sibling.Log, "\n"))
+				}
+				own := append([]string{}, sibling.Log[forkLog:]...)
+				sibling.Log = append(append(append([]string{}, a.Log...), "-- prime fork: the entries since the fork above are block A; the node now appends and follows sibling block B:"), own...)
+				a = sibling
+				stats.Label(partH, "prime_fork")
 			}
 			if err := a.Adopt(); err != nil {
 				t.Fatalf("HARNESS: adopt: %v", err)
